@@ -45,7 +45,9 @@ PROPS = {
         rule="PARTIAL (DESIGN 5 C16, 8): the theorems cover go-task's own decode / compile / snippet / include-location logic over abstract node trees; "
              "yaml.v3, text/template, regexp, chroma, giturls are oracles in the model and are covered by this fuzz only (not proof). "
              "cases: (tree) node trees generated along the Taskfile schema with deviations at every node (null / empty map / empty seq / wrong kind, nulls in list positions, "
-             "regex metacharacters in names, odd include locations, timestamps), every single-node mutation of a maximal well-formed Taskfile (a slice per shard in the quick tier, all in the thorough tier), "
+             "regex metacharacters in names, odd include locations, timestamps), every single-node mutation of a maximal well-formed Taskfile (a third per run in the quick tier, all in the thorough tier), "
+             "the same mutations and random deviations applied to an INCLUDED Taskfile reached directly, flattened and at depth 2 (Tasks.Merge deep-copies every field: a null entry in every list position is always taken, the other mutations rotate), "
+             "(concurrency) valid Taskfiles with 50-160 wildcard tasks whose first lookups happen at once (a task with that many wildcard-resolved deps, Run with Parallel, and the CLI with --parallel): a fatal error of the Go runtime ends the child process and is an impl_failure of kind fatal, "
              "serialised to YAML and run in-process through the REAL yaml.Unmarshal into ast.Taskfile -> Executor.Setup -> GetTask/FastCompiledTask/CompiledTask of every task and of a few requested names "
              "-> ListTasks (plain, JSON) -> dry Run of every task, each under recover and a deadline in a child process that is replaced when a goroutine of go-task panics or hangs; "
              "(bytes) malformed byte streams (CR / NEL / LS / PS terminators, BOMs, aliases, merge keys, tags, deep nesting, damaged documents): monitor only; "
@@ -54,7 +56,7 @@ PROPS = {
              "R_mon = mon_C16 (no panic, no hang, documented exit code) on the observed outcome; R_decode = exact outcome of the decoder vs decode_taskfile; "
              "R_tree = observed outcome fits predict (panic site in must++may, no panic when must is non-empty is a disagreement, exact outcome when the model determines it); "
              "R_snip / R_loc / R_wild = panic-or-not vs snippet_bounds / new_node / wildcard_compile. The model variant is `current`, built from the extracted guard facts. "
-             "A real panic or hang is an impl_failure whatever the model says (a hang during the dry run is inconclusive: executing is outside C16's termination clause). "
+             "A real panic, fatal error or hang is an impl_failure whatever the model says (a hang during the dry run is inconclusive: executing is outside C16's termination clause). "
              "non-trivial = at least one probe ran; distinct = distinct (kind, input bytes, outcome) tuples",
         assumptions=[
             "claimed level: partial — bytes -> node tree (yaml.v3's scanner/parser/resolver), template parsing and execution, regexp compilation, chroma highlighting and giturls parsing are NOT modelled; "
